@@ -10,6 +10,9 @@ from pfv import terms as tm
 from pfv import smt, fc, cutloops
 from pfv.framework import Obligation, Verdict, real_exec
 from pfv.proxies import explore, SReal, SInt, Unsupported, ctx, lift
+import functools as _ft
+_explore_raw = explore
+explore = _ft.partial(_explore_raw, enforce_bounds=True)     # shim range assumptions (slices / indices) must be provable on every returning path
 
 N, T = tm.var('N', 'I'), tm.var('T', 'I')
 DIMS = [tm.ge(N, tm.IONE), tm.ge(T, tm.IONE)]
@@ -632,7 +635,7 @@ def antithetic_ob():
             def run(c):
                 return randn_antithetic(SInt(N), SInt(T), shuffle=shuffle, dtype=torch.float64)
             try:
-                paths = explore(run, DIMS, max_paths=16)
+                paths = _explore_raw(run, DIMS, max_paths=16)      # the range assumptions are decided (and replayed) below
             except Unsupported as e:
                 return Verdict('unknown', 'engine', time.time() - t0, 'out of reach: %s' % e)
             from pfv.torchlib.tensor import ti
